@@ -29,10 +29,51 @@
                   the model gives), and the recursive pre-order walk returns exactly when its fuel exceeds the height:
                   recursion depth = nesting depth (the logic half of the stack-overflow question).
    C12_path_suffix [U]: path() of an element ends with its item name (the strip_suffix(..).unwrap() of set_item_name).
-   Findings (fixed in /repo, the sites are gone from Ops.v): c28d8d2, dbf2768, 8b342ea — see findings/C12-panic-*. *)
+   Findings (fixed in /repo, the sites are gone from Ops.v): c28d8d2, dbf2768, 8b342ea — see findings/C12-panic-*.
+
+   ---- the FULL theorems (the _partial ones above are kept) ----
+   Float oracle (Tree/NoPanicFloat.v): run_opF fmt = run_op with Element::set_character_data's `value.to_string()` of a Float
+                  replaced by fmt : N -> list N, ANY function from the 64 bits to a byte string (Ops.v has `Pan UNMODELLED` there).
+                  C12_oracle_facts: run_opF = run_op on every call without a Float argument; run_opF extends run_op; every step
+                  of run_opF is a step of run_op for some argument (so every invariant of run_op histories transfers).
+   C12_no_panic_all [U]: EVERY constructor of `op`, every argument: PanicFree w, SizeOk w, RefNoFloat w, op_wf w o
+                  => run_opF o w is neither Pan nor Fuel.  No side12 (cross-model moves: Tree/NoPanicProofsMoveX.v), no covered_op.
+                  RefNoFloat T w = a reference element holds no Float (its text is taken with to_string by the cross-model move).
+   H12 (Tree/NoPanicProofsHist.v) = Core (C03) /\ CharsLeaf /\ OriginsRef (C03) /\ RE /\ RV (C14) /\ RX (C04) /\ PMB (a parent link
+                  `PModel m` names an existing model).  C12_invariant [U]: H12 holds in the empty world, is kept by all 26
+                  operations (oracle alphabet) whatever they return, and implies PanicFree and RefNoFloat.  This is the
+                  "PanicFree preservation for all 26 operations": PanicFree alone is not inductive (it does not say where
+                  types and values come from), H12 is, and PanicFree is its consequence in every reachable world.
+   C12_no_panic_histories [F tables, U histories]: on the regenerated tables, from the empty world, every history whose calls
+                  are well-formed where they run (wf_ops) runs to its end: no call panics or runs out of fuel.
+                  C12_no_panic_after_history: the same as "one more call after any history";  C12_no_panic_histories_nofloat:
+                  without Float arguments the same for Tree/Script.v's own run_ops;  C12_panicfree_reachable: PanicFree and
+                  RefNoFloat in every world run_ops reaches.
+   wf_ops l w   = for each call o of l, at the world w_k where it runs: op_wf w_k o and SizeOk w_k.
+   op_wf, precisely (Tree/NoPanic.v), and why it does not restrict the public API:
+                  - an element argument is an allocated node id (h < w_next w): an `Element` handle is an Arc that keeps its
+                    ElementRaw alive, so a client cannot hold a handle to nothing; REMOVED elements and elements of OTHER models
+                    are allocated nodes and are allowed (the theorems cover stale and foreign handles);
+                  - a model / file argument is an index into w_models / w_files: `AutosarModel` / `ArxmlFile` handles are Arcs as
+                    well (files of another model and removed files are allowed; remove_file only unlinks);
+                  - an ElementName argument is inside the ElementName string table and an EnumItem inside a CharacterData::Enum
+                    argument is inside the EnumItem table: both are Rust enums, a client cannot build another discriminant;
+                  - NOT restricted: positions, strings (names, paths, texts, comments), numbers, versions, attribute names,
+                    Float / UnsignedInteger / String values, and which handle is combined with which.
+   Hypotheses left: CHECK (the validator functions return a boolean: C19's subject), RootOK (the attribute list that
+                  AutosarModel::new gives the root element uses attribute names / enum values of the tables), SizeOk (< 10^39
+                  identifiables per model: `format!("{counter}")` of make_unique_item_name; honest and kept — agent-c13's
+                  C13_unique_loop_total replaces it by the same kind of bound).
+   C12_no_panic2_partial [partial]: the large alphabet op2 (Tree/Script2.v) after any such history: Op1 (all of `op`), OpSort and
+                  OpSortModel (agent-c14's C14_never_fails_histories_real) are covered; C12_coverage2: PENDING are OpDuplicate,
+                  OpLoad, OpSetVersion, OpCheckCompat, OpSerializeFile, OpSerializeElem (parts exist: C02_load_total for the
+                  parser, C17_unwrap_safe_real for the mask unwrap, C13_unique_loop_total for the copies' counter loop; not
+                  composed to the whole call — the fuzzer and the properties' own harnesses cover them). *)
 From AV Require Import Base.Bytes Base.Outcome Hash.HashModel Hash.HashRealEnum Hash.HashRealElement Spec.SpecOps Spec.SpecReal Xml.TablesOk.
 From AV Require Import Tree.Heap Tree.Ops Tree.Script Tree.Inv Tree.NoPanic.
 From AV Require Import Tree.NoPanicProofsBase Tree.NoPanicProofsDepth Tree.NoPanicProofsCopy2 Tree.NoPanicProofsMain Tree.NoPanicReal.
+From AV Require Import Hash.HashRealAttr Tree.Script2 Tree.SortProofsHeap Tree.SortProofsReadyV Tree.IndexProofsNodeInv Tree.NoPanicProofsMoveX Tree.NoPanicFloat
+  Tree.NoPanicProofsHist Tree.NoPanicProofsHistReal Tree.NoPanicProofsOp2.
 Open Scope N_scope.
 
 Theorem C12_no_panic_partial :
@@ -91,3 +132,102 @@ Theorem C12_path_suffix :
       exists r, path_of T n w = Val (r, w) /\
         forall p own, r = OK p -> item_name T n w = Val (OK (Some own), w) -> exists base, strip_suffix own p = Some base.
 Proof. exact path_suffix. Qed.
+
+(* ================= the full theorems ================= *)
+
+Theorem C12_oracle_facts :
+  forall (T : tables) (tab_el tab_en : nametab) (check_fn : N -> list N -> res bool) (LATEST : N) (root_attrs : list (N * cdata))
+         (fmt : N -> list N) (o : op),
+    (covered_op o = true -> run_opF T tab_el tab_en check_fn LATEST root_attrs fmt o = run_op T tab_el tab_en check_fn LATEST root_attrs o) /\
+    (forall w x, run_op T tab_el tab_en check_fn LATEST root_attrs o w = Val x ->
+                 run_opF T tab_el tab_en check_fn LATEST root_attrs fmt o w = Val x) /\
+    (forall w r w', run_opF T tab_el tab_en check_fn LATEST root_attrs fmt o w = Val (r, w') ->
+                    exists o' r', run_op T tab_el tab_en check_fn LATEST root_attrs o' w = Val (r', w')).
+Proof. exact oracle_facts. Qed.
+
+Theorem C12_no_panic_all :
+  forall (T : tables) (tab_el tab_en : nametab) (check_fn : N -> list N -> res bool) (LATEST : N) (root_attrs : list (N * cdata)),
+    tables_ok12 T = true ->
+    (forall fn s, exists b, check_fn fn s = Val b) ->
+    nametab_ok tab_en = true ->
+    name_ok tab_el (name_short_name T) ->
+    forall (fmt : N -> list N) w o,
+      PanicFree T tab_el tab_en w -> SizeOk w -> RefNoFloat T w -> op_wf tab_el tab_en w o ->
+      (forall s, run_opF T tab_el tab_en check_fn LATEST root_attrs fmt o w <> Pan s) /\
+      run_opF T tab_el tab_en check_fn LATEST root_attrs fmt o w <> Fuel.
+Proof. exact no_panic_all'. Qed.
+
+Theorem C12_invariant :
+  forall (T : tables) (tab_el tab_at tab_en : nametab) (check_fn : N -> list N -> res bool) (LATEST : N) (root_attrs : list (N * cdata)),
+    tables_ok12 T = true ->
+    (forall i e, i < n_elements T -> T_elements T i = Some e -> to_str tab_el (ed_name e) <> None) ->
+    (forall k items it, T_cdata T k = Some (CEnum items) -> In it items -> to_str tab_en (fst it) <> None) ->
+    (forall k name cdid req, T_attributes T k = Some (name, cdid, req) -> to_str tab_at name <> None) ->
+    attrV tab_at tab_en root_attrs ->
+    (forall ty cs v ver, is_ref T ty = Val true -> chardata_spec T ty = Val (Some cs) ->
+                         check_value check_fn v cs ver = Val true -> exists s, v = DString s) ->
+    (forall ty, et_new T (autosar_element T) = Val ty -> plainty T ty) ->
+    forall (fmt : N -> list N),
+      H12 T tab_el tab_at tab_en empty_world /\
+      (forall o w r w', H12 T tab_el tab_at tab_en w -> run_opF T tab_el tab_en check_fn LATEST root_attrs fmt o w = Val (r, w') ->
+                        H12 T tab_el tab_at tab_en w') /\
+      (forall w, H12 T tab_el tab_at tab_en w -> PanicFree T tab_el tab_en w /\ RefNoFloat T w).
+Proof. exact H12_invariant. Qed.
+
+Theorem C12_no_panic_histories :
+  forall (check_fn : N -> list N -> res bool) (LATEST : N) (root_attrs : list (N * cdata)) (fmt : N -> list N),
+    (forall fn s, exists b, check_fn fn s = Val b) ->
+    (forall a, In a root_attrs -> to_str tab_attr (fst a) <> None /\ cdata_named tab_enum (snd a)) ->
+    forall l,
+      wf_ops RT tab_element tab_enum check_fn LATEST root_attrs fmt l empty_world ->
+      exists w', run_opsF RT tab_element tab_enum check_fn LATEST root_attrs fmt l empty_world = Val w'.
+Proof. exact no_panic_histories_real. Qed.
+
+Theorem C12_no_panic_after_history :
+  forall (check_fn : N -> list N -> res bool) (LATEST : N) (root_attrs : list (N * cdata)) (fmt : N -> list N),
+    (forall fn s, exists b, check_fn fn s = Val b) ->
+    (forall a, In a root_attrs -> to_str tab_attr (fst a) <> None /\ cdata_named tab_enum (snd a)) ->
+    forall l w o,
+      run_opsF RT tab_element tab_enum check_fn LATEST root_attrs fmt l empty_world = Val w ->
+      wf_ops RT tab_element tab_enum check_fn LATEST root_attrs fmt l empty_world ->
+      op_wf tab_element tab_enum w o -> SizeOk w ->
+      (forall s, run_opF RT tab_element tab_enum check_fn LATEST root_attrs fmt o w <> Pan s) /\
+      run_opF RT tab_element tab_enum check_fn LATEST root_attrs fmt o w <> Fuel.
+Proof. exact no_panic_after_history_real. Qed.
+
+Theorem C12_no_panic_histories_nofloat :
+  forall (check_fn : N -> list N -> res bool) (LATEST : N) (root_attrs : list (N * cdata)) (fmt : N -> list N),
+    (forall fn s, exists b, check_fn fn s = Val b) ->
+    (forall a, In a root_attrs -> to_str tab_attr (fst a) <> None /\ cdata_named tab_enum (snd a)) ->
+    forall l,
+      Forall (fun o => covered_op o = true) l ->
+      wf_ops RT tab_element tab_enum check_fn LATEST root_attrs fmt l empty_world ->
+      exists w', Inv.run_ops RT tab_element tab_enum check_fn LATEST root_attrs l empty_world = Val w'.
+Proof. exact no_panic_histories_nofloat_real. Qed.
+
+Theorem C12_panicfree_reachable :
+  forall (check_fn : N -> list N -> res bool) (LATEST : N) (root_attrs : list (N * cdata)),
+    (forall a, In a root_attrs -> to_str tab_attr (fst a) <> None /\ cdata_named tab_enum (snd a)) ->
+    forall l w,
+      Inv.run_ops RT tab_element tab_enum check_fn LATEST root_attrs l empty_world = Val w ->
+      PanicFree RT tab_element tab_enum w /\ RefNoFloat RT w.
+Proof. exact panicfree_reachable_real. Qed.
+
+Theorem C12_coverage2 : forall o,
+  covered_op2 o = match o with Op1 _ | OpSort _ | OpSortModel _ => true | _ => false end.
+Proof. exact coverage2. Qed.
+
+Theorem C12_no_panic2_partial :
+  forall (check_fn : N -> list N -> res bool) (float_parse : list N -> option N) (fmt : N -> list N)
+         (LATEST name_index name_definition_ref attr_schema_location : N) (root_attrs : list (N * cdata)),
+    (forall fn s, exists b, check_fn fn s = Val b) ->
+    (forall a, In a root_attrs -> to_str tab_attr (fst a) <> None /\ cdata_named tab_enum (snd a)) ->
+    forall l w o,
+      run_opsF RT tab_element tab_enum check_fn LATEST root_attrs fmt l empty_world = Val w ->
+      wf_ops RT tab_element tab_enum check_fn LATEST root_attrs fmt l empty_world ->
+      covered_op2 o = true -> op2_wf tab_element tab_enum w o ->
+      (forall s, run_op2F RT tab_element tab_attr tab_enum check_fn float_parse fmt LATEST name_index name_definition_ref
+                          attr_schema_location root_attrs o w <> Pan s) /\
+      run_op2F RT tab_element tab_attr tab_enum check_fn float_parse fmt LATEST name_index name_definition_ref
+               attr_schema_location root_attrs o w <> Fuel.
+Proof. exact no_panic2_partial_real. Qed.
